@@ -21,6 +21,7 @@ import json
 import multiprocessing
 import os
 import random
+import shutil
 import signal
 import sys
 import time
@@ -215,6 +216,54 @@ def _run_in_fork(mod, case, allowance):
     return out
 
 
+_SUBPROCESS_CHILD = r'''
+import importlib, json, pickle, sys
+sys.path.insert(0, %(verif)r)
+from sim import core
+core._IN_SUBPROCESS[0] = True
+mod = importlib.import_module(%(modname)r)
+case = json.load(open(%(casefile)r))
+out = core.run_guarded(mod, case, %(allowance)d)
+pickle.dump(out, open(%(outfile)r, 'wb'))
+'''
+_IN_SUBPROCESS = [False]
+
+
+def _run_in_interpreter(mod, case, allowance):
+    """The case runs in a fresh interpreter started with the environment
+    the case asks for (case['interp_env']: a locale, PYTHONUTF8...): host
+    settings that are fixed when an interpreter starts."""
+    import pickle
+    import subprocess
+    import tempfile
+    d = tempfile.mkdtemp(prefix='petl-verif-interp-',
+                         dir=devices.scratch_root())
+    try:
+        casefile = os.path.join(d, 'case.json')
+        outfile = os.path.join(d, 'out.pickle')
+        with open(casefile, 'w') as f:
+            json.dump(case, f)
+        env = dict(os.environ, PYTHONHASHSEED='0',
+                   PYTHONDONTWRITEBYTECODE='1')
+        env.update(case['interp_env'])
+        p = subprocess.run(
+            [sys.executable, '-c', _SUBPROCESS_CHILD % {
+                'verif': _VERIF_DIR, 'modname': mod.__name__,
+                'casefile': casefile, 'outfile': outfile,
+                'allowance': allowance}],
+            env=env, stdout=subprocess.PIPE, stderr=subprocess.STDOUT,
+            text=True, errors='replace', timeout=allowance * 10 + 60)
+        if not os.path.exists(outfile):
+            raise RuntimeError('case interpreter failed (exit %d): %s'
+                               % (p.returncode, p.stdout[-800:]))
+        with open(outfile, 'rb') as f:
+            out = pickle.load(f)
+        out['probes']['ran-in-own-interpreter'] = 1
+        return out
+    finally:
+        shutil.rmtree(d, ignore_errors=True)
+
+
 def run_isolated(mod, case, allowance=30):
     """run_guarded in a forked child of this process."""
     if _IN_FORK[0]:
@@ -226,6 +275,8 @@ def run_isolated(mod, case, allowance=30):
 
 def run_guarded(mod, case, allowance=30):
     """Run one case; harness exceptions are kept apart from violations."""
+    if case.get('interp_env') and not _IN_SUBPROCESS[0]:
+        return _run_in_interpreter(mod, case, allowance)
     if case.get('forked') and not _IN_FORK[0]:
         return _run_in_fork(mod, case, allowance)
     # (the tree under test must be the first petl this process imports)
